@@ -4,7 +4,7 @@ from coqrun import coq_list, ni, pb
 from gen import pyref, txgen
 from gen.util import lib_vs_model, rbytes, short
 
-NEEDS = dict(cli=False, harness=True, shim=False, release=True)
+NEEDS = dict(cli=True, harness=True, shim=False, release=True)
 RULE = ("len(n, off) for every n in 0..70000 and within +-300 of 2^16, 2^24, 2^32 plus random n < 2^40, both offsets; "
         "bytes: all 256 single bytes, every length 0..1100 with three fills, 65535/65536 (thorough: 2^24-1, 2^24, 2^24+1); "
         "uint: every byte width 1..32 with 00..01 / 7f.. / 80.. / ff.. / random patterns and zero; list: item lists whose "
@@ -203,6 +203,16 @@ def run(ctx):
             if kind:
                 t.f["accessList"] = txgen.rand_access_list(rng, max_entries=rng.choice([0, 1, 3, 8]), max_keys=rng.choice([0, 1, 2, 9, 40]))
             txs.append(t)
+    # list payloads on both sides of 2^8 and 2^16 inside ONE access-list entry (7/8 and 1985/1986 storage keys), and many entries
+    for kind in (1, 2):
+        for nk in (1, 7, 8, 1985, 1986, 2000):
+            t = txgen.rand_tx(rng, kind=kind, small=True)
+            t.f["accessList"] = [(rbytes(rng, 20), [rbytes(rng, 32) if i % 5 else (i).to_bytes(32, "big") for i in range(nk)])] + \
+                                ([(rbytes(rng, 20), [])] if nk % 2 else [])
+            txs.append(t)
+        t = txgen.rand_tx(rng, kind=kind, small=True)
+        t.f["accessList"] = [(rbytes(rng, 20), [rbytes(rng, 32)]) for _ in range(1200)]
+        txs.append(t)
     docs = [txgen.render(rng, t) for t in txs]
     sig = ((1).to_bytes(32, "big"), (2).to_bytes(32, "big"), b"\x01")
     impl = ctx.harness([("tx.encode", d.encode(), *sig) for d in docs])
@@ -222,6 +232,40 @@ def run(ctx):
                 ctx.violation("tx-decodes", case, "a strict decoder returns the original fields", dict(encoded=short(raw)))
         except pyref.RlpError as e:
             ctx.violation("tx-canonical", case, "accepted by a strict decoder", dict(encoded=short(raw), error=str(e)))
+    # the same through the command-line binary (large outputs included): what `sign transaction` prints is canonical and complete
+    import os
+    import tempfile
+    from common import CACHE
+    phrase = "test test test test test test test test test test test junk"
+    tmp = tempfile.mkdtemp(prefix="c07-", dir=CACHE)
+    ctx_txs = []
+    for n in (0, 100, 3990, 4050, 4096, 5000, 8192, 12345, 70000):
+        t = txgen.rand_tx(rng, kind=rng.randrange(3), chain=1, small=True)
+        t.f["data"] = txgen.rand_data(rng, n)
+        ctx_txs.append(t)
+    runs = []
+    for i, t in enumerate(ctx_txs):
+        p = os.path.join(tmp, "t%d.json" % i)
+        open(p, "w").write(txgen.render(rng, t))
+        runs.append(dict(args=["sign", "--mnemonic", phrase, "transaction", p]))
+    for t, r in zip(ctx_txs, ctx.cli(runs)):
+        case = dict(op="sign transaction (CLI)", kind=t.kind, calldata_length=len(t.f["data"]))
+        ctx.count("cli/sign-transaction")
+        ctx.distinct(("clitx", t.kind, len(t.f["data"])))
+        if r.cls != "ok":
+            ctx.violation("cli-sign-transaction", case, "signed transaction", str(r)[:200])
+            continue
+        try:
+            raw = bytes.fromhex(r.stdout.decode().strip()[2:])
+            body = raw if t.kind == 0 else raw[1:]
+            item, rest = pyref.rlp_decode_strict(body)
+            if rest or item[:-3] != t.items(None)[: len(item) - 3]:
+                ctx.violation("cli-output-decodes", case, "a strict decoder consumes the whole output and returns the fields", short(raw))
+        except (ValueError, pyref.RlpError) as e:
+            ctx.violation("cli-output-canonical", case, "hex of canonical RLP", str(e))
+    for f in os.listdir(tmp):
+        os.remove(os.path.join(tmp, f))
+    os.rmdir(tmp)
     ctx.sample(dict(op="rlp::bytes", data="00", encoded=impl and "00"))
     ctx.sample(dict(op="rlp::len", n=1024, offset=0x80, encoded="b90400"))
 
